@@ -50,7 +50,9 @@ var genericStd = map[string]interface{}{
 	"path/filepath.FromSlash": filepath.FromSlash, "path/filepath.Rel": filepath.Rel, "path/filepath.SplitList": filepath.SplitList, "path/filepath.VolumeName": filepath.VolumeName,
 }
 
-const genericMaxSymBytes = 8
+// symbolic bytes the fallback may enumerate per argument (256 values each): beyond that the call is unsupported
+// (the path becomes inconclusive and is probed natively) instead of exploding
+const genericMaxSymBytes = 2
 
 // genericCall tries the reflective fallback; ok=false if the function is not in the table.
 func (in *Interp) genericCall(full string, args []Value) (Value, bool) {
@@ -84,7 +86,7 @@ func (in *Interp) genericCall(full string, args []Value) (Value, bool) {
 func (in *Interp) toReflect(v Value, t reflect.Type, full string) reflect.Value {
 	switch t.Kind() {
 	case reflect.String:
-		return reflect.ValueOf(in.forceConc(v.(*Str), full)).Convert(t)
+		return reflect.ValueOf(in.forceConcBounded(v.(*Str), full)).Convert(t)
 	case reflect.Bool:
 		return reflect.ValueOf(in.branch(v.(*Term)))
 	case reflect.Int, reflect.Int8, reflect.Int16, reflect.Int32, reflect.Int64:
@@ -114,7 +116,7 @@ func (in *Interp) toReflect(v Value, t reflect.Type, full string) reflect.Value 
 		case reflect.String:
 			ss := make([]string, sl.Len)
 			for i := 0; i < sl.Len; i++ {
-				ss[i] = in.forceConc(sl.B.E[sl.Off+i].(*Str), full)
+				ss[i] = in.forceConcBounded(sl.B.E[sl.Off+i].(*Str), full)
 			}
 			return reflect.ValueOf(ss).Convert(t)
 		case reflect.Slice:
@@ -175,4 +177,18 @@ func (in *Interp) fromReflect(o reflect.Value, full string) Value {
 	}
 	in.unsupported("generic fallback: result kind %s of %s", o.Kind(), full)
 	return nil
+}
+
+func (in *Interp) forceConcBounded(s *Str, full string) string {
+	s = in.forceSingle(s)
+	nsym := 0
+	for _, b := range s.Alts[0].Sym {
+		if !b.IsConst() {
+			nsym++
+		}
+	}
+	if nsym > genericMaxSymBytes {
+		in.unsupported("generic fallback: %s on a string with %d symbolic bytes", full, nsym)
+	}
+	return in.forceConc(s, full)
 }
